@@ -277,6 +277,11 @@ func (s *Sim) checkBuffers(ctx *StepCtx) {
 		if !bytes.Equal(p.b, g.Payload) {
 			s.violate("C14", "gpdu.payload", "gpdu:payload-changed", "payload of packet %d changed: sent up % x, re-injected % x", tag, head(p.b, 24), head(g.Payload, 24))
 		}
+		if p.state == "late-for-ended-session" {
+			s.violate("C13", "buf.scope", "buf:emitted-under-reused-seid",
+				"packet %d was handed up for a session (SEID %#x) that ended before the notification was served; it was re-injected under the session that now holds that SEID", tag, p.seid)
+			continue
+		}
 		if p.state == "nopdr" {
 			continue // handed up for a PDR id the session did not have: outside the quantifier
 		}
@@ -452,10 +457,15 @@ func (s *Sim) checkQueueLens(ctx *StepCtx) {
 // checkNOCP: a notification with NOCP for a live session raises one downlink-data
 // report towards the owner, and none without.
 func (s *Sim) checkNOCP(ctx *StepCtx) {
-	if ctx.Kind != "kbuf" || !s.oracleOn("C13") {
+	if len(ctx.bufNotes) == 0 || !s.oracleOn("C13") {
 		return
 	}
 	want := map[string]int{}
+	for _, e := range ctx.bufNotes {
+		if e.state == "late-for-ended-session" {
+			return // judged by the scope check (emission under a re-used SEID)
+		}
+	}
 	for _, e := range ctx.bufNotes {
 		if e.sess != nil && e.action&actNOCP != 0 {
 			want[fmt.Sprintf("%s:8805/%#x/%d", e.sess.Node, e.sess.CP, e.pdr)]++
